@@ -107,7 +107,9 @@ def c18_call(k0: int, k1: int, k2: int, nparams: int, nargs: int, s0: int, s1: i
             rev = gd.call(**{f"p{n}": a for n, a in reversed(list(enumerate(args)))})
         except Exception as ex:
             return f"keyword call in reversed order raised {exc(ex)} :: {what}"
-        if not (rev == pos) or list(rev.parameters.keys()) != list(pos.parameters.keys()) or any(rev.parameters[k] is not pos.parameters[k] for k in pos.parameters):
+        if not (rev == pos) or list(rev.parameters.keys()) != list(pos.parameters.keys()) or any(
+                type(rev.parameters[k]) is not type(pos.parameters[k]) or not (rev.parameters[k] == pos.parameters[k] or rev.parameters[k] is pos.parameters[k])
+                for k in pos.parameters):
             return f"keyword call in another order gives a different statement :: {what}"
     if (pos is None) != (kw is None):
         return f"positional call {'rejected' if pos is None else 'accepted'} but keyword call {'rejected' if kw is None else 'accepted'} :: {what}"
